@@ -37,6 +37,7 @@ func checkC14(ctx *Ctx, r *Report) {
 	c14FifthRound(ctx, r)
 	c14GoConverterBuffer(ctx, r)
 	c14SixthRound(ctx, r)
+	c14SeventhRound(ctx, r)
 	c02GoRuntimeDefines(ctx, r)
 }
 
@@ -750,6 +751,16 @@ func c14ValueGuards(ctx *Ctx, r *Report) {
 	parents := parentMap(fd)
 	emptinessUnguarded, n := "", 0
 	multiArgAware := false
+	// local variables that hold the default of the assigned type (possibly replaced by what the constructor sets)
+	initialValues := map[string]bool{}
+	ast.Inspect(fd.Body, func(m ast.Node) bool {
+		if as, ok := m.(*ast.AssignStmt); ok && len(as.Lhs) == 1 && len(as.Rhs) == 1 && strings.HasSuffix(exprString(as.Rhs[0]), ".Default") {
+			if id, ok := as.Lhs[0].(*ast.Ident); ok {
+				initialValues[id.Name] = true
+			}
+		}
+		return true
+	})
 	ast.Inspect(fd.Body, func(m ast.Node) bool {
 		cl, ok := m.(*ast.CompositeLit)
 		if !ok {
@@ -772,7 +783,7 @@ func c14ValueGuards(ctx *Ctx, r *Report) {
 			}
 		}
 		isEmptiness := strings.HasSuffix(op, "MinLengthOp") || (strings.HasSuffix(op, "NotEqualOp") && val == `""`)
-		isValueGuard := isEmptiness || (strings.HasSuffix(op, "NotEqualOp") && strings.Contains(val, "Default"))
+		isValueGuard := isEmptiness || (strings.HasSuffix(op, "NotEqualOp") && (strings.Contains(val, "Default") || initialValues[val]))
 		if !isValueGuard {
 			return true
 		}
@@ -1466,4 +1477,150 @@ func c14SixthRound(ctx *Ctx, r *Report) {
 	}
 	r.Count("hunted clauses of the converter (6th round)", n)
 	r.Floor("hunted clauses of the converter (6th round)", 3)
+}
+
+// c14SeventhRound — fifth hunt:
+//   - the names of the temporaries of the Go converter are built from the name of a field, which is data: every
+//     variable name the converter template builds with `print` from an `.Identifier` passes it through a function of
+//     the jenny (`my-tags` gave `tmpmy - tagsarg1 := …`);
+//   - constructorArgs sorts the assignments it reads by the position of their argument in Constructor.Args (as
+//     mappingForOption does for options): a promoted `range(min, max)` that assigns max first was printed (200, 1);
+//   - the "not what a new builder holds" guard of guardForAssignments consults what the constructor sets: FromBuilder
+//     records the constant assignments of the constructor, and the guard's value is taken from that record when the
+//     path is in it (the `initialize` veneer);
+//   - the fields of an envelope are compared with nil only under a nullability test.
+func c14SeventhRound(ctx *Ctx, r *Report) {
+	n := 0
+	// (a)
+	ts, err := loadTemplates(ctx, "golang")
+	if err != nil {
+		r.Undecided("cannot parse golang templates: %v", err)
+	} else {
+		raw := 0
+		built := 0
+		for _, name := range ts.names() {
+			if !strings.Contains(ts.file[name], "converters/") {
+				continue
+			}
+			walkTmpl(ts.trees[name].Root, func(m parse.Node) bool {
+				an, ok := m.(*parse.ActionNode)
+				if !ok || len(an.Pipe.Decl) == 0 {
+					return true
+				}
+				text := an.Pipe.String()
+				// `$x := print "tmp" … .Identifier …`: a variable of the generated code named after a field
+				if !strings.Contains(text, "print ") || !strings.Contains(text, ".Identifier") {
+					return true
+				}
+				built++
+				for _, cmd := range an.Pipe.Cmds {
+					for _, arg := range cmd.Args {
+						if fn, ok := arg.(*parse.FieldNode); ok && len(fn.Ident) > 0 && fn.Ident[len(fn.Ident)-1] == "Identifier" {
+							raw++
+						}
+					}
+				}
+				return true
+			})
+		}
+		if built == 0 {
+			r.Undecided("anchor changed: the Go converter templates build no variable name from an identifier")
+		} else {
+			n++
+			r.Check(raw == 0, "kinds/go-converter-temporaries-named", "golang converter templates name temporaries after fields", token.NoPos, fmt.Sprintf("the %d names built from an identifier pass it through a function", built),
+				fmt.Sprintf("%d variable name(s) of the converter are built from the raw identifier of a field: `\"my-tags\": [...string]` gives `tmpmy - tagsarg1 := …` — the generated package does not compile and no value can be converted", raw))
+		}
+	}
+	lp := ctx.Pkg("internal/languages")
+	if lp == nil {
+		r.Undecided("anchor lost: internal/languages")
+		return
+	}
+	info := lp.TypesInfo
+	// (b)
+	if fd := c12Method(lp, "constructorArgs"); fd == nil {
+		r.Undecided("anchor lost: languages.ConverterGenerator.constructorArgs")
+	} else {
+		sorts, byDeclaration := false, false
+		ast.Inspect(fd.Body, func(m ast.Node) bool {
+			switch x := m.(type) {
+			case *ast.CallExpr:
+				if f := callee(info, x); f != nil && f.Pkg() != nil && f.Pkg().Path() == "sort" && strings.HasPrefix(f.Name(), "Slice") {
+					sorts = true
+				}
+			case *ast.RangeStmt:
+				if strings.HasSuffix(exprString(x.X), ".Constructor.Args") {
+					byDeclaration = true
+				}
+			}
+			return true
+		})
+		n++
+		r.Check(sorts && byDeclaration, "order/arguments-in-declaration-order", "languages.ConverterGenerator.constructorArgs orders the arguments of the constructor", fd.Pos(), "by their position in Constructor.Args",
+			"constructorArgs prints the arguments in the order of the constructor's assignments: `add_option range(min, max)` assigning max first, promoted to the constructor, prints NewOuterBuilder(200, 1) for {\"min\":1,\"max\":200} — it compiles, the swap is silent")
+	}
+	// (c)
+	gfd := c12Method(lp, "guardForAssignments")
+	ffd := c12Method(lp, "FromBuilder")
+	if gfd == nil || ffd == nil {
+		r.Undecided("anchor lost: languages.ConverterGenerator.guardForAssignments / FromBuilder")
+	} else {
+		// receiver fields FromBuilder fills from the constant assignments of the constructor
+		recorded := map[*types.Var]bool{}
+		ast.Inspect(ffd.Body, func(m ast.Node) bool {
+			rs, ok := m.(*ast.RangeStmt)
+			if !ok || !strings.HasSuffix(exprString(rs.X), ".Constructor.Assignments") {
+				return true
+			}
+			ast.Inspect(rs.Body, func(k ast.Node) bool {
+				as, ok := k.(*ast.AssignStmt)
+				if !ok || len(as.Lhs) != 1 || len(as.Rhs) != 1 || !strings.HasSuffix(exprString(as.Rhs[0]), ".Value.Constant") {
+					return true
+				}
+				if ix, ok := ast.Unparen(as.Lhs[0]).(*ast.IndexExpr); ok {
+					if sel, ok := ast.Unparen(ix.X).(*ast.SelectorExpr); ok {
+						if f := fieldOf(info, sel); f != nil {
+							recorded[f] = true
+						}
+					}
+				}
+				return true
+			})
+			return true
+		})
+		consults := false
+		ast.Inspect(gfd.Body, func(m ast.Node) bool {
+			if ix, ok := m.(*ast.IndexExpr); ok {
+				if sel, ok := ast.Unparen(ix.X).(*ast.SelectorExpr); ok && recorded[fieldOf(info, sel)] {
+					consults = true
+				}
+			}
+			return true
+		})
+		n++
+		r.Check(len(recorded) != 0 && consults, "flow/value-guard-against-what-the-constructor-sets", "languages.ConverterGenerator.guardForAssignments compares a value with what a new builder holds", gfd.Pos(), "FromBuilder records the constants the constructor assigns and the guard consults them",
+			"guardForAssignments compares a value with the default of its type only: with `initialize name = \"foo\"` (NewOuterBuilder() holds foo) and the schema default \"bar\", the value {\"name\":\"bar\"} is taken for what a new builder holds — no Name(\"bar\") is printed and the rebuilt object has \"foo\"")
+		// (d)
+		guardedByNullability := false
+		parents := parentMap(gfd)
+		ast.Inspect(gfd.Body, func(m ast.Node) bool {
+			rs, ok := m.(*ast.RangeStmt)
+			if !ok || !strings.HasSuffix(exprString(rs.X), ".Envelope.Values") {
+				return true
+			}
+			_ = parents
+			ast.Inspect(rs.Body, func(k ast.Node) bool {
+				if is, ok := k.(*ast.IfStmt); ok && strings.Contains(exprString(is.Cond), "TypeIsNullable") && endsInExit(is.Body) {
+					guardedByNullability = true
+				}
+				return true
+			})
+			return true
+		})
+		n++
+		r.Check(guardedByNullability, "flow/envelope-nil-guards-only-for-nullables", "languages.ConverterGenerator.guardForAssignments guards the fields of an envelope", gfd.Pos(), "a field is compared with nil only when its type can be nil",
+			"guardForAssignments adds `!= nil` for every field of an envelope: `withMain(title, url) { main = Link{title, url} }` gives `if input.Main.Title != nil` on a string — mismatched types string and nil, the converter does not compile")
+	}
+	r.Count("hunted clauses of the converter (7th round)", n)
+	r.Floor("hunted clauses of the converter (7th round)", 4)
 }
